@@ -14,14 +14,14 @@ check 'rt-interval'  case = {"kind", "t0", "op": interval|timer, "period", "pfor
 """
 from __future__ import annotations
 
-from datetime import timedelta
+from datetime import timedelta, timezone
 
 from hypothesis import strategies as st
 
 import reactivex
 import reactivex.observable.interval  # noqa: F401  (lazily imported by reactivex.interval(); import now = same steps in every run)
 import reactivex.observable.timer  # noqa: F401
-from reactivex.scheduler import CatchScheduler, EventLoopScheduler, NewThreadScheduler
+from reactivex.scheduler import CatchScheduler, EventLoopScheduler, NewThreadScheduler, ThreadPoolScheduler, TimeoutScheduler
 
 from vlib import det, detrun
 from vlib.core import Check, HarnessError
@@ -29,8 +29,8 @@ from vlib.values import Tagged, canon
 
 RULE = (
     "REAL TIME (Engine DET, fake clock) - check 'rt-periodic': schedule_periodic(period, action, state) on EventLoopScheduler "
-    "(exit_if_empty False/True), NewThreadScheduler, CatchScheduler(EventLoopScheduler) and CatchScheduler(NewThreadScheduler) "
-    "(handler verdict generated); all threads (creator, optional second disposing thread, the library's loop / periodic "
+    "(exit_if_empty False/True), NewThreadScheduler, ThreadPoolScheduler (cooperative executor), TimeoutScheduler (cooperative "
+    "Timer threads), CatchScheduler(EventLoopScheduler) and CatchScheduler(NewThreadScheduler) (handler verdict generated); all threads (creator, optional second disposing thread, the library's loop / periodic "
     "threads) are controlled logical threads, time moves only when all are blocked. Period 1..5 ms as float seconds or timedelta, "
     "the k-th invocation spends a generated 0..2*period+1 ms (cooperative wait, so overruns are exercised), state function in "
     "{inc, double, none, const}, stop by dispose() of the returned disposable at a generated time after creation (by the "
@@ -46,7 +46,7 @@ RULE = (
     "one; every tick due strictly before the first dispose() began / the raise has happened; the action's exception reaches "
     "the handler exactly once on catch schedulers and escapes the executing thread iff the handler returned False or there is "
     "no handler; nothing else escapes, no deadlock. Check 'rt-interval': reactivex.interval(p) / timer(d, p) (d relative "
-    "float/timedelta or absolute datetime, d == p and d != p, d == 0) on the same five schedulers, scheduler given to the "
+    "float/timedelta or absolute datetime in UTC or in a UTC-5 zone, d == p and d != p, d == 0) on the same seven schedulers, scheduler given to the "
     "factory or to subscribe, observer busy for < period inside on_next, subscription disposed at a generated instant or at the "
     "horizon: on_next values are int 0,1,2,... exactly at t0+d+k*p, none at an instant later than a returned dispose, all ticks "
     "due before the dispose delivered, no terminal event, nothing escapes. Non-trivial (both): >=3 ticks and a dispose or "
@@ -59,7 +59,7 @@ ASSUMPTIONS = [
     "real-time half: bounds <=2 program threads, <=8 periods, <=3 drawn / <=1-2 exhaustive preemptions (line-level yield points, CPython GIL atomicity)",
 ]
 
-KINDS = ["eventloop", "eventloop-eie", "newthread", "catch-eventloop", "catch-newthread"]
+KINDS = ["eventloop", "eventloop-eie", "newthread", "catch-eventloop", "catch-newthread", "threadpool", "timeout"]
 _F = {
     "inc": lambda s: (s or 0) + 1,
     "double": lambda s: 1 if s is None else 2 * s,
@@ -78,6 +78,10 @@ def _make(kind, verdict, handled):
         inner = EventLoopScheduler(exit_if_empty=True)
     elif base == "newthread":
         inner = NewThreadScheduler()
+    elif base == "threadpool":  # a NewThreadScheduler whose threads are pool futures (cooperative executor): same periodic loop
+        inner = ThreadPoolScheduler(3)
+    elif base == "timeout":  # PeriodicScheduler's self-rescheduling closure on one Timer thread per tick
+        inner = TimeoutScheduler()
     else:
         raise HarnessError(f"bad kind {kind}")
     bad = det.audit_object(inner)
@@ -270,7 +274,10 @@ def _judge_periodic(case, ctx, res):
         other = [e for e in esc if not any(e is w for w in want)]
         if other:
             return (f"escaped:{type(other[0]).__name__}", f"{other[0]!r} escaped a thread; all={res.exceptions}"), True, cl
-        return ("exception-swallowed", f"action raised {raised} but it did not surface (handler={'returned ' + str(case['verdict']) if catch else 'none'})"), True, cl
+        if case["kind"] == "threadpool" and not esc:
+            cl.add("exception-kept-in-pool-future")  # a pool job's exception is stored in its Future (executor semantics), no thread dies
+        else:
+            return ("exception-swallowed", f"action raised {raised} but it did not surface (handler={'returned ' + str(case['verdict']) if catch else 'none'})"), True, cl
     if raised:
         cl.add("raise-reached")
     if res.horizon_reached:
@@ -330,7 +337,12 @@ def _build_interval(case):
             obs = reactivex.interval(p_arg, scheduler=s_factory)
         else:
             d = case["d"]
-            d_arg = det.now() + timedelta(milliseconds=d) if case["dform"] == "dt" else _rel(d, case["dform"])
+            if case["dform"] == "dt":
+                d_arg = det.now() + timedelta(milliseconds=d)
+            elif case["dform"] == "dtz":  # the same absolute instant expressed in a zone west of UTC
+                d_arg = (det.now() + timedelta(milliseconds=d)).astimezone(timezone(timedelta(hours=-5)))
+            else:
+                d_arg = _rel(d, case["dform"])
             obs = reactivex.timer(d_arg, p_arg, scheduler=s_factory)
         return obs.subscribe(
             on_next=on_next,
@@ -448,7 +460,7 @@ def _interval_cases(sched):
                 "period": st.just(p),
                 "pform": st.sampled_from(["f", "td"]),
                 "d": st.one_of(st.just(p), st.integers(0, 7)),
-                "dform": st.sampled_from(["f", "td", "dt"]),
+                "dform": st.sampled_from(["f", "td", "dt", "dtz"]),
                 "sched_at": st.sampled_from(["factory", "subscribe"]),
                 "busy": busy,
                 "stop": st.one_of(st.none(), _stops(p, nper), _stops(p, nper)),
